@@ -215,6 +215,9 @@ func (c *UDPConn) send(p []byte, to netip.AddrPort) (int, error) {
 	}
 	data := append([]byte(nil), p...)
 	w.logf("usend", "%s n=%d", lk, len(p))
+	if w.OnUDPSend != nil {
+		w.OnUDPSend(c.owner, src, to, data)
+	}
 	if RandProbe != nil {
 		w.logf("rand_probe", "%d", RandProbe())
 	}
